@@ -54,6 +54,7 @@ func runRLWEElement(c *eng.Ctx, cfg pcfg) {
 			case "hist-out/nil-metadata":
 				out.MetaData = nil
 			}
+			t.out(out) // (out=in: the output is the argument, only the fresh run is judged)
 			return ins, func() (string, error) { out.Element.Copy(&in.Element); return elString(rq, &out.Element), nil }
 		})
 		t.runPatterns("rlwe.Element.CopyNew", v.name, "", []string{"new-vs-copy"}, func(pat string) ([]named, func() (string, error)) {
@@ -62,7 +63,11 @@ func runRLWEElement(c *eng.Ctx, cfg pcfg) {
 				out := rlwe.NewCiphertext(p, v.deg, v.lvl)
 				return nil, func() (string, error) { out.Element.Copy(&in.Element); return elString(rq, &out.Element), nil }
 			}
-			return []named{{"op", in}}, func() (string, error) { return elString(rq, in.Element.CopyNew()), nil }
+			return []named{{"op", in}}, func() (string, error) {
+				cp := in.Element.CopyNew()
+				t.out(cp)
+				return elString(rq, cp), nil
+			}
 		})
 		// Resize is in place; growing must give zero rows / components whatever the object held before
 		for _, to := range []struct{ deg, lvl int }{{2, L}, {1, L}, {0, 0}, {v.deg, v.lvl}} {
@@ -79,7 +84,8 @@ func runRLWEElement(c *eng.Ctx, cfg pcfg) {
 			})
 		}
 	}
-	// ---- NewElementAtLevelFromPoly: the polynomials are inputs (documented: the result shares their arrays)
+	// ---- NewElementAtLevelFromPoly: the polynomials are inputs (documented: "the returned Element will share its
+	// backing array of coefficients": the result is NOT exposed to the output-independence check)
 	for _, lvl := range []int{L, 0} {
 		lvl := lvl
 		src := e.ct(L, 2)
@@ -125,6 +131,7 @@ func runRLWEElement(c *eng.Ctx, cfg pcfg) {
 				a, b := copyCt(v.a), copyCt(v.b)
 				out := rlwe.NewCiphertext(p, v.oDeg, v.oLvl)
 				fillResidues(rq, out, eng.NewRand("c09-initout", 1))
+				t.out(out)
 				return []named{{"op0", a}, {"op1", b}}, func() (string, error) {
 					d, l, err := ev.InitOutputBinaryOp(a.El(), b.El(), 2, out.El())
 					return res(d, l, err, out)
@@ -161,6 +168,9 @@ func runRLWEElement(c *eng.Ctx, cfg pcfg) {
 					if out != b && b != a {
 						ins = append(ins, named{"op1", b})
 					}
+					if out != a && out != b {
+						t.out(out)
+					}
 					return ins, func() (string, error) {
 						d, l, err := s.newEval().InitOutputBinaryOp(a.El(), b.El(), 4, out.El())
 						return res(d, l, err, out)
@@ -174,6 +184,7 @@ func runRLWEElement(c *eng.Ctx, cfg pcfg) {
 				}
 				a := copyCt(v.a)
 				out := rlwe.NewCiphertext(p, v.oDeg, v.oLvl)
+				t.out(out)
 				return []named{{"op0", a}}, func() (string, error) {
 					d, l, err := ev.InitOutputUnaryOp(a.El(), out.El())
 					return res(d, l, err, out)
@@ -214,6 +225,7 @@ func runRLWEElement(c *eng.Ctx, cfg pcfg) {
 						po.polyQP(dec[i])
 					}
 				}
+				t.out(&dec)
 				return []named{{"c2", &in.Value[1]}}, func() (string, error) {
 					ev.DecomposeNTT(lvl, LP, LP+1, in.Value[1], in.IsNTT, dec)
 					return decString(dec), nil
@@ -232,6 +244,7 @@ func runRLWEElement(c *eng.Ctx, cfg pcfg) {
 					fillResidues(rq, out, rnd)
 				}
 				*out.MetaData = *in.MetaData
+				t.out(out)
 				return []named{{"BuffQPDecompQP", &dec}, {"gadgetCt", &gk.GadgetCiphertext}}, func() (string, error) {
 					ev.GadgetProductHoisted(lvl, dec, &gk.GadgetCiphertext, out)
 					return ctString(rq, out), nil
@@ -292,6 +305,7 @@ func runRingDegreeSwitch(t *T, e *rlweEnv, s *scheme[*rlwe.Evaluator]) {
 				in := copyCt(src)
 				in.IsNTT = false
 				out := mkCt(pOut, lvl, pat == "hist-out")
+				t.out(out)
 				return []named{{"ctIn", in}}, func() (string, error) {
 					rlwe.SwitchCiphertextRingDegree(in.El(), out.El())
 					return elString(rqOut, out.El()), nil
@@ -305,6 +319,7 @@ func runRingDegreeSwitch(t *T, e *rlweEnv, s *scheme[*rlwe.Evaluator]) {
 				if dir == "large->small" {
 					rl = rqL.AtLevel(lvl)
 				}
+				t.out(out)
 				return []named{{"ctIn", in}}, func() (string, error) {
 					rlwe.SwitchCiphertextRingDegreeNTT(in.El(), rl, out.El())
 					return elString(rqOut, out.El()), nil
@@ -334,6 +349,7 @@ func runRingDegreeSwitch(t *T, e *rlweEnv, s *scheme[*rlwe.Evaluator]) {
 				case "hist-out-low":
 					return nil, nil
 				}
+				t.out(out)
 				return []named{{"ctIn", in}, {"evk", swk}}, func() (string, error) {
 					err := ev.ApplyEvaluationKey(in, swk, out)
 					return ctString(rqOut, out), err
